@@ -68,6 +68,10 @@ def describe(e):
     key = "%s be=%s" % (e["kind"], BE[e["be"]])
     if e["kind"] == "word":
         key += " op=%s" % e["op"]
+    if e["kind"] == "blind":
+        key += " op=%s" % e["op"]
+        if e["op"] in ("retriever", "retrieve"):
+            key += " size=%s" % e.get("size")
     if e["kind"] == "prep":
         key += " start=%s count=%s" % (e["start"], e["count"])
     if e["kind"] in ("chain", "shared"):
